@@ -162,6 +162,27 @@ PROPS = {
         "stubs": KANI_STUBS,
         "assumptions": TRUST,
     },
+    "C02": {
+        "engines": ["E2 mirsym+z3/cvc5"],
+        "e2": True,
+        "functions": [
+            ("rsass::input::Context::lock_loading", "input/context.rs", r"pub\(crate\) fn lock_loading"),
+            ("rsass::input::Context::unlock_loading", "input/context.rs", r"pub fn unlock_loading"),
+        ],
+        "bounds": {"quick": "one lock_loading / unlock_loading call from an ARBITRARY set of files being loaded (the map's answer is symbolic)"},
+        "outside": "URL resolution and spelling (relative(), find_file), that every lock is paired with an unlock on all paths of transform.rs / mixin.rs (load-css), termination of the recursive descent itself",
+        "stubs": ["BTreeMap::insert/remove are events with a symbolic previous entry", "SourceFile::source().name() and path() name the same key (both read data.source.name: checked in the MIR of path())"],
+        "assumptions": ["rustc nightly MIR text = the code that is compiled", "mirsym's MIR subset semantics (/verif/mirsym/sym.py)", "z3 5.1 and cvc5 1.0.3"],
+    },
+    "C03": {
+        "engines": ["E2 mirsym+z3/cvc5"],
+        "e2": True,
+        "functions": [("rsass::output::CssData::load_module", "output/cssdata.rs", r"pub fn load_module")],
+        "bounds": {"quick": "one load_module call from an ARBITRARY cache state, the initialiser's result (Ok/Err) symbolic"},
+        "outside": "that Item::Use / Item::Forward pass a canonical path (different spellings of one URL), the module scopes themselves, @import (not cached by design)",
+        "stubs": ["BTreeMap::get/insert are events", "the initialiser closure is an opaque call returning Ok(scope) or Err"],
+        "assumptions": ["rustc nightly MIR text = the code that is compiled", "mirsym's MIR subset semantics (/verif/mirsym/sym.py)", "z3 5.1 and cvc5 1.0.3"],
+    },
     "C06": {
         "engines": ["E2 mirsym+z3/cvc5"],
         "e2": True,
